@@ -144,7 +144,8 @@ int  vm_rwlock_writer(int ri);
 int  vm_rwlock_readers(int ri);
 
 #ifdef VM_CW_HOOK
-void VM_CW_HOOK(int ci, int mi);   /* -DVM_CW_HOOK=fn: replaces the blocking part of cond_wait (inductive sequential queries) */
+void VM_CW_HOOK(int ci, int mi);   /* -DVM_CW_HOOK=fn: replaces the blocking part of cond_wait (inductive sequential queries);
+                                      with -DVM_CW_RELEASE the platform mutex is released before / re-acquired after the hook */
 #endif
 #ifdef VM_PT_FAULTS
 /* sequential return-code queries: when vm_fault_armed != 0 the NEXT model call performs nothing and
